@@ -197,6 +197,21 @@ def with_options(cls, *args):
         return cls(*args)
 
 
+if os.environ.get('HPACK_VERIF_SUBCLASS') == '1':
+    # the application holds SUBCLASSES of the three classes (nothing overridden: a counter attribute and a helper method,
+    # as instrumentation or framework glue would add); everything must behave as with the base classes
+    class _AppEncoder(Encoder):
+        blocks_sent = 0
+        def describe(self): return 'app encoder'
+    class _AppDecoder(Decoder):
+        blocks_received = 0
+        def describe(self): return 'app decoder'
+    class _AppTable(HeaderTable):
+        lookups = 0
+        def describe(self): return 'app table'
+    Encoder, Decoder, HeaderTable = _AppEncoder, _AppDecoder, _AppTable
+
+
 SHARED = bytearray()      # a receive buffer the "application" reuses: overwritten in place for every #buf=shared op
 
 
